@@ -60,6 +60,7 @@ class C06(SpecValueCheck):
         p = super().profile(tier, shard)
         p.kinds = [k for k in PER_KINDS] + ['INTEGER'] * 4 + ['ENUMERATED', 'REAL', 'BIT STRING', 'OCTET STRING']
         p.real_wc = True
+        p.real_wc_near = True
         p.root2 = True
         return p
 
